@@ -566,6 +566,15 @@ def run(run):
     except AnalysisBroken as ex:
         run.broken('GIDCLAMP', 'getClassGlyph answers from inside the class', str(ex))
     from . import c19, ordint as O_
+    inst_ = 'INSERT / DELETE leave a well-formed chain with exactly the one slot added / removed (handlers interpreted)'
+    try:
+        cases_, bad_ = handlers_exec(run, vm, 3)
+        if bad_:
+            run.violated('LINKSYM', inst_, vm.handlers['insert'].where(), bad_)
+        else:
+            run.held('LINKSYM', inst_, vm.handlers['insert'].where(), '%d abstract executions' % cases_)
+    except O_.AnalysisBroken as ex:
+        run.broken('LINKSYM', inst_, str(ex), '')
     rs_ = fx.one('graphite2::Segment::reverseSlots')
     inst_ = 'reverseSlots leaves a well-formed chain of the same slots (interpreted)'
     try:
@@ -579,3 +588,124 @@ def run(run):
     run.assume('pre-state of each mutator is a well-formed stream (the rules are the preservation step of an induction; the base case is '
                'appendSlot on the empty segment)')
     run.assume('allocation failure is outside the quantifier')
+
+
+def _chain_of(O, seg, limit):
+    """(ids in next order, error) -- next from m_first visits distinct slots, prev is its exact inverse, the walk ends at m_last"""
+    PS, PG = 'graphite2::Slot::', 'graphite2::Segment::'
+    out, s, seen, prev = [], seg[PG + 'm_first'], set(), None
+    while isinstance(s, O.Ptr) and s.rec is not None:
+        if id(s.rec) in seen or len(out) > limit:
+            return None, 'the next chain from m_first runs into a cycle after %s' % out
+        seen.add(id(s.rec))
+        p = s.rec[PS + 'm_prev']
+        if (p.rec if isinstance(p, O.Ptr) else None) is not prev:
+            return None, 'slot #%d: prev is %s, but it is reached from %s' % (s.rec['#'], 'null' if p.rec is None else '#%d' % p.rec['#'], 'm_first' if prev is None else '#%d' % prev['#'])
+        out.append(s.rec['#'])
+        prev = s.rec
+        s = s.rec[PS + 'm_next']
+    last = seg[PG + 'm_last']
+    if (last.rec if isinstance(last, O.Ptr) else None) is not prev:
+        return None, 'm_last is %s, the chain ends at %s' % ('null' if last.rec is None else '#%d' % last.rec['#'], 'nothing' if prev is None else '#%d' % prev['#'])
+    return out, None
+
+
+def handlers_exec(run, vm, maxn=3):
+    """LINKSYM by bounded execution (rules/ordint.py): the INSERT and DELETE handlers (the per-opcode functions of call_machine.cpp, i.e. the
+    bodies of inc/opcodes.h, with the Slot / Segment / SlotMap accessors inlined from their own CFGs; Segment::newSlot is a native handing
+    out a clean slot) are interpreted on every stream of 0..maxn slots x current slot (any slot, null, or -- for INSERT -- a slot deleted
+    earlier in the rule whose next still points into the stream) x high-water mark.  Afterwards the stream is a well-formed doubly linked
+    chain: INSERT adds exactly the new slot, directly in front of the first live slot at or after the current one (at the end if there is
+    none), the other slots keep their order, the count grows by one and the new slot becomes current; DELETE removes exactly the current
+    slot, marks it deleted, the count drops by one, the high-water mark moves off it."""
+    from . import ordint as O
+    fx = vm.fx
+    PS, PM, PG = 'graphite2::Slot::', 'graphite2::SlotMap::', 'graphite2::Segment::'
+    srec = fx.record('graphite2::Slot')
+    DEL = 1
+
+    def mkslot(k):
+        s = O.Rec()
+        for f in srec['fields']:
+            s[PS + f['n']] = O.Ptr(None) if f.get('ptr') else 0
+        s['#'] = k
+        return s
+    cases = 0
+    for hname in ('insert', 'delete_'):
+        h = vm.handlers[hname]
+        for n in range(0, maxn + 1):
+            cur = [('slot', k) for k in range(n)] + [('null', None)]
+            if hname == 'insert':
+                cur += [('dead', k) for k in range(n + 1)]       # a deleted slot whose next is slot k (or null)
+            for kind, k in cur:
+                for hw in [None] + list(range(n)):
+                    slots = [mkslot(i) for i in range(n)]
+                    for i, sl in enumerate(slots):
+                        sl[PS + 'm_next'] = O.Ptr(slots[i + 1]) if i + 1 < n else O.Ptr(None)
+                        sl[PS + 'm_prev'] = O.Ptr(slots[i - 1]) if i else O.Ptr(None)
+                        sl[PS + 'm_before'] = sl[PS + 'm_after'] = sl[PS + 'm_original'] = i
+                    dead = None
+                    if kind == 'dead':
+                        dead = mkslot(50)
+                        dead[PS + 'm_flags'] = DEL
+                        dead[PS + 'm_next'] = O.Ptr(slots[k]) if k < n else O.Ptr(None)
+                        dead[PS + 'm_prev'] = O.Ptr(slots[k - 1]) if 0 < k <= n and n else O.Ptr(None)
+                    seg = O.Rec({PG + 'm_first': O.Ptr(slots[0]) if n else O.Ptr(None), PG + 'm_last': O.Ptr(slots[-1]) if n else O.Ptr(None),
+                                 PG + 'm_numGlyphs': n, PG + 'm_defaultOriginal': 0})
+                    mapvec = O.Vec([O.Ptr(None)] + [O.Ptr(s) for s in slots] + [O.Ptr(None)] * 3)
+                    smap = O.Rec({PM + 'segment': seg, PM + 'm_slot_map': O.It(mapvec, 0), PM + 'm_precontext': 0, PM + 'm_size': n,
+                                  PM + 'm_highwater': O.Ptr(slots[hw]) if hw is not None else O.Ptr(None), PM + 'm_highpassed': False, PM + 'm_maxSize': 10})
+                    isrec = slots[k] if kind == 'slot' else dead
+                    stbox = [0]
+                    reg = O.Rec({'regbank::is': O.Ptr(isrec), 'regbank::map': O.It(mapvec, 1 + (k if kind == 'slot' else 0)), 'regbank::smap': smap,
+                                 'regbank::map_base': O.It(mapvec, 1), 'regbank::direction': 0, 'regbank::flags': 0, 'regbank::status': O.LV(stbox, 0)})
+                    stack = O.Vec([0] * 8)
+                    fresh = []
+
+                    def newslot(I, fn, e, obj, a, fresh=fresh):
+                        s = mkslot(100 + len(fresh))
+                        fresh.append(s)
+                        return O.Ptr(s)
+                    it = O.Interp(fx, natives={'graphite2::Segment::newSlot': newslot})
+                    it.MAX_STEPS = 4000
+                    desc = '%s on %d slot(s), current = %s, high-water mark %s' % (hname.rstrip('_').upper(), n, {'slot': 'slot #%s' % k, 'null': 'null', 'dead': 'a deleted slot in front of %s' % ('#%d' % k if k is not None and k < n else 'the end')}[kind],
+                                                                                   'none' if hw is None else '#%d' % hw)
+                    cases += 1
+                    try:
+                        res = it.call(h, None, [O.LV([O.It(O.Vec([0] * 4), 0)], 0), O.LV([O.It(stack, 2)], 0), O.It(stack, 2), reg])
+                    except O.Violation as v:
+                        if hname == 'delete_' and kind == 'null':
+                            continue
+                        return cases, '%s: %s (%s)' % (desc, v.what, v.loc)
+                    got, err = _chain_of(O, seg, n + 3)
+                    if err:
+                        return cases, '%s: afterwards %s' % (desc, err)
+                    if res is False or res == 0:
+                        # the handler stopped the program (DIE): the stream must be what it was
+                        if got != list(range(n)):
+                            return cases, '%s: the handler gives up but leaves the stream as %s' % (desc, got)
+                        continue
+                    if hname == 'insert':
+                        pos = k if kind in ('slot', 'dead') and k is not None else n
+                        want = list(range(pos)) + [100] + list(range(pos, n))
+                        if len(fresh) != 1 or got != want:
+                            return cases, '%s: the stream is %s afterwards, expected the new slot (#100) directly in front of %s: %s' % (desc, got, 'the end' if pos >= n else '#%d' % pos, want)
+                        if seg[PG + 'm_numGlyphs'] != n + 1:
+                            return cases, '%s: the slot count is %r, the stream has %d slots' % (desc, seg[PG + 'm_numGlyphs'], n + 1)
+                        if reg['regbank::is'].rec is not fresh[0]:
+                            return cases, '%s: the new slot does not become the current slot' % desc
+                    else:
+                        want = [i for i in range(n) if i != k]
+                        if got != want:
+                            return cases, '%s: the stream is %s afterwards, expected %s' % (desc, got, want)
+                        if seg[PG + 'm_numGlyphs'] != n - 1:
+                            return cases, '%s: the slot count is %r, the stream has %d slots' % (desc, seg[PG + 'm_numGlyphs'], n - 1)
+                        if not (slots[k][PS + 'm_flags'] & DEL):
+                            return cases, '%s: the removed slot is not marked deleted (SlotMap::collectGarbage will not free it)' % desc
+                        hwp = smap[PM + 'm_highwater']
+                        if hwp.rec is slots[k]:
+                            return cases, '%s: the high-water mark still points at the removed slot' % desc
+                        cur_after = reg['regbank::is'].rec
+                        if k > 0 and cur_after is not slots[k - 1]:
+                            return cases, '%s: the current slot afterwards is %s, expected the slot in front of the removed one' % (desc, '#%s' % cur_after['#'] if cur_after else 'null')
+    return cases, None
